@@ -862,6 +862,12 @@ def _run(ctx, cfg, n_cases, pool, res):
         nresps = run_model([net_tie.net_request(r["case"]) for r in net_cases])
         for r, resp in zip(net_cases, nresps):
             r["net_stuck"] = any(c.get("stuck") == "outOfFuel" for c in resp.get("calls", []))
+            # the place-invariant certificate of the net as generated (hypothesis of Net.C01.final_place_exclusive_partial):
+            # None = the net has a parallel loop (rebuilt at run time, no certificate), else decided by certCheck
+            r["cert0"] = resp.get("cert0")
+            if prop == "C01" and resp.get("cert0") is False:
+                net_disagreements.append((r, "net layer: the place-invariant certificate (Net.certCheck) fails for the generated net: "
+                                             "the hypothesis of Net.C01.final_place_exclusive_partial does not hold for this program"))
             d = net_tie.compare_calls(r["calls"], r.get("net0") if prop in NET_STRUCTURE_PROPS else None,
                                       r.get("net1") if prop in NET_STRUCTURE_PROPS else None, resp,
                                       proj=(proj_net_c01 if prop == "C01" else proj))
@@ -1078,6 +1084,9 @@ def _run(ctx, cfg, n_cases, pool, res):
         "traces_validated_against_impl": len([r for r in valid if not r["case"].get("imm_other")]) if ctx["model_ok"] else 0,
         "monitor_only_cross_reentrant_cases": len([r for r in valid if r["case"].get("imm_other") and not net_tie.applicable(r["case"])]),
         "net_layer_cases": len(net_cases),
+        "net_layer_certificate": {"certified": len([r for r in net_cases if r.get("cert0") is True]),
+                                  "no_certificate_parallel_loop": len([r for r in net_cases if r.get("cert0") is None]),
+                                  "certificate_fails": len([r for r in net_cases if r.get("cert0") is False])},
         "net_layer_any_shape_cases": len([r for r in net_cases if r.get("net_only")]),
         "net_layer_any_shape_shapes": _shape_hist([r for r in net_cases if r.get("net_only")]),
         "net_layer_cross_reentrant_cases": len([r for r in net_cases if r["case"].get("imm_other")]),
